@@ -71,17 +71,24 @@ class UFQPolicy(AbstractQPolicy):
     theta: jax.Array
     tag: str = eqx.field(static=True)
 
-    def __init__(self, A, m=1, tag="Q"):
+    stateful: bool = eqx.field(static=True, default=False)
+
+    def __init__(self, A, m=1, tag="Q", stateful=False):
         self.action_space = Discrete(A)
         self.observation_space = Box(-jnp.inf, jnp.inf, shape=(m,))
         self.epsilon = 0.0
         self.theta = jnp.zeros(())
         self.tag = tag
+        self.stateful = stateful
 
     def reset(self, *, key):
-        return None
+        from .harness import UFPolState
+        return UFPolState(jnp.zeros(1)) if self.stateful else None
 
     def q_values(self, state, observation):
+        if self.stateful:
+            # a recurrent Q-network: the values depend on the internal state the policy had when it saw the observation
+            return state, uf(self.tag, [((self.action_space.n,), "float32")], _sg(self.theta), _sg(state.h), _sg(observation))[0]
         return None, uf(self.tag, [((self.action_space.n,), "float32")], _sg(self.theta), _sg(observation))[0]
 
 
